@@ -162,7 +162,10 @@ def calibration_why(fam, X):
             return f'Gumbel theta = {th!r}, calibration 1/(1 - tau) of tau = {tau!r} is {want!r}'
     if fam == 'frank' and 0.01 < abs(tau) < 0.9944 and 0 < abs(th) < 600:
         t = debye_tau(th)
-        if abs(t - tau) > 1e-6:
+        # the library's own tau equation integrates the Debye integrand from EPSILON = 2^-23 instead of 0 (the integrand tends to 1
+        # there), which shifts the calibrated tau by 4*EPSILON/theta^2 (1e-5 at theta = 0.2; the extreme case, no root at all for
+        # -0.0034 < tau < 0, is finding F33 of C11).  That systematic term is allowed for; everything beyond it is a miscalibration.
+        if abs(t - tau) > 1e-6 + 1.05 * 4 * 1.1920929e-07 / th ** 2:
             return (f'Frank theta = {th!r} has theoretical Kendall tau {t!r} (Debye function, independent quadrature), but the data tau is '
                     f'{tau!r} (difference {abs(t - tau):.3g})')
     return None
